@@ -4,9 +4,11 @@ import (
 	"context"
 	"fmt"
 	"io"
+	"io/ioutil"
 	"sort"
 	"strings"
 	"sync"
+	"syscall"
 	"time"
 
 	"github.com/logrange/logrange/api"
@@ -41,6 +43,33 @@ type E2EReplay struct {
 }
 
 const flushDeadline = 20 * time.Second
+
+// fdPressure: more than 70 % of the process's file descriptor limit is in use. Stopped servers leak the
+// descriptors of their chunk reader pools (the journal controller has no Shutdown); when the limit of the
+// environment is low, writes start failing for that reason and not because of the code under test: such a run is an
+// infrastructure error, never a verdict.
+func fdPressure() (bool, string) {
+	var rl syscall.Rlimit
+	if syscall.Getrlimit(syscall.RLIMIT_NOFILE, &rl) != nil {
+		return false, ""
+	}
+	ents, err := ioutil.ReadDir("/proc/self/fd")
+	if err != nil {
+		return false, ""
+	}
+	if uint64(len(ents))*10 > rl.Cur*7 {
+		return true, fmt.Sprintf("%d of %d file descriptors in use", len(ents), rl.Cur)
+	}
+	return false, ""
+}
+
+// tuneFds: the chunk configuration is read when a journal is created (first write), so it can still be adjusted
+// here: idle chunk writers give their file descriptors back after 1 s instead of 30 s, and the reader pool is
+// small. With MaxChunkSize of a few dozen bytes a case makes dozens of chunks; nothing here changes what is
+// written or read.
+func tuneFds(srv *Server) {
+	srv.Cfg.JrnlCtrlConfig.WriteIdleSec = 1
+}
 
 // model.Iterator over a slice of LogEvents (what a direct caller of partition.Service.Write passes)
 type sliceIt struct {
@@ -156,9 +185,14 @@ func runE2E(rp E2EReplay) (*e2eOut, error) {
 		return nil, fmt.Errorf("server start: %v", err)
 	}
 	defer srv.Stop()
+	tuneFds(srv)
 	ctx := context.Background()
 	out := &e2eOut{}
+	pressure := ""
 	fail := func(class, detail string) {
+		if p, how := fdPressure(); p && pressure == "" {
+			pressure = how
+		}
 		if out.viol == nil {
 			out.viol = &Violation{Class: class, Detail: detail}
 		}
@@ -453,6 +487,9 @@ func runE2E(rp E2EReplay) (*e2eOut, error) {
 	for i := range wes {
 		wes[i] = GNone
 	}
+	if pressure != "" {
+		return nil, fmt.Errorf("the harness process is running out of file descriptors (%s): raise `ulimit -n`; no verdict", pressure)
+	}
 	out.coq = GApp("KE2E", gCfg(rp.MaxChunk, rp.MaxRec), ftab.gallina(), ntab.gallina(), kvtab.gallinaKV(), GList(coqReqs),
 		GList(acks), GList(wes), GList(reads), GList(chunks))
 	out.nontriv = multiChunk || bothLevels
@@ -509,6 +546,7 @@ func runConc(rp E2EReplay) (*e2eOut, error) {
 		return nil, fmt.Errorf("server start: %v", err)
 	}
 	defer srv.Stop()
+	tuneFds(srv)
 	ctx := context.Background()
 	out := &e2eOut{}
 	const tags = "conc=1"
@@ -537,6 +575,9 @@ func runConc(rp E2EReplay) (*e2eOut, error) {
 	wg.Wait()
 	for w, e := range errs {
 		if e != nil {
+			if p, how := fdPressure(); p {
+				return nil, fmt.Errorf("the harness process is running out of file descriptors (%s): raise `ulimit -n`; no verdict", how)
+			}
 			out.viol = &Violation{Class: "concurrent-write-failed", Detail: fmt.Sprintf("writer %d: %v", w, e)}
 		}
 	}
@@ -617,7 +658,11 @@ func runPos(rp E2EReplay) (*e2eOut, error) {
 	defer ms.Stop()
 	ctx := context.Background()
 	out := &e2eOut{}
+	pressure := ""
 	fail := func(class, detail string) {
+		if p, how := fdPressure(); p && pressure == "" {
+			pressure = how
+		}
 		if out.viol == nil {
 			out.viol = &Violation{Class: class, Detail: detail}
 		}
@@ -752,6 +797,9 @@ func runPos(rp E2EReplay) (*e2eOut, error) {
 			spans = true
 		}
 		wes = append(wes, GSome(GSome(GPair(GPair(GN(uint64(rs)), GN(w.s[1])), GPair(GN(uint64(re)), GN(w.e[1]))))))
+	}
+	if pressure != "" {
+		return nil, fmt.Errorf("the harness process is running out of file descriptors (%s): raise `ulimit -n`; no verdict", pressure)
 	}
 	out.coq = GApp("KE2E", gCfg(rp.MaxChunk, rp.MaxRec), "[]", ntab.gallina(), "[]", GList(coqReqs),
 		GList(acks), GList(wes), "[]", GList(chunks))
